@@ -12,11 +12,12 @@ hangs; when it accepts, the model (which accepts only texts derivable from the g
 declared bound constants, reading every character) accepts too.  Correspondence: same accept/reject decision,
 and on acceptance `spec_print()` equals the names computed from the model's parse tree.
 """
+import re
 from .. import common, formula as F, front as FR, disc
 from ..engine import Violation, Ctx
 
 RULE = ("valid: random formulas (depth<=4) under random aliases/separators/parenthesisation, with or without ';' and assertion head, "
-        "intervals with units and declared constants; mutant: 1 edit of a valid text (8 edit kinds); soup: 1-12 random tokens. "
+        "intervals with units and declared constants; mutant: 1 edit of a valid text (8 character/token edit kinds; 8 interval edit kinds: identifiers as bounds, swapped bounds, units, radix, reals); soup: 1-12 random tokens. "
         "distinct by text; non-trivial: every text counts once (the observable is the outcome class and the printed AST).")
 EXPLANATION = ("theorems (Lean): the lexer and parser are total functions (termination accepted by the kernel); C14_lexStep_skip / "
                "C14_lex_error_propagates (the lexer skips white space and comments only; any other unrecognised character is an error "
@@ -56,7 +57,10 @@ def gen_valid(rng):
 
 
 def check_text(ctx, text, consts, stream, m):
-    out = FR.impl_parse(text, VARS, consts)
+    # one text in five goes through the dense-time specification class (same parser visitor, other unit handling)
+    kind = "offc" if sum(map(ord, text)) % 5 == 0 else "offd"
+    ctx.count("spec-class:" + kind)
+    out = FR.impl_parse(text, VARS, consts, kind=kind)
     rep = {"text": text, "consts": consts, "stream": stream, "impl": out, "model": m}
     ctx.nontrivial.add(text)
     if out[0] == "other":
@@ -80,11 +84,46 @@ def check_text(ctx, text, consts, stream, m):
     return None, None
 
 
+IV_RE = re.compile(r"\[([^\[\],:]+)([,:])([^\[\],:]+)\]")
+
+
+def interval_mutant(rng, text):
+    """Edits of one interval: identifiers (signals, undeclared names, constants) as bounds, swapped bounds, units that make
+    begin > end as durations, hexadecimal / binary / underscore literals, real-valued bounds."""
+    ms = list(IV_RE.finditer(text))
+    if not ms:
+        return None
+    m = rng.choice(ms)
+    b, sep, e = m.group(1), m.group(2), m.group(3)
+    kind = rng.choice(["ident-begin", "ident-end", "ident-both", "swap", "units", "radix", "real", "empty"])
+    ident = lambda: rng.choice(VARS + ["zz", "K1", "out", "always", "s"])  # noqa: E731
+    if kind == "ident-begin":
+        b = ident()
+    elif kind == "ident-end":
+        e = ident()
+    elif kind == "ident-both":
+        b, e = ident(), ident()
+    elif kind == "swap":
+        b, e = e, b
+    elif kind == "units":
+        b, e = b + rng.choice(["s", "ms", "us", "ns", ""]), e + rng.choice(["s", "ms", "us", "ns", ""])
+    elif kind == "radix":
+        b, e = rng.choice(["0x0", "0b1", "0", "0_1"]), rng.choice(["0x3", "0b11", "1_0", "0xg", "0b2"])
+    elif kind == "real":
+        b, e = rng.choice(["0.0", "1.0", "0.5", "1e0"]), rng.choice(["2.0", "1.5", "3", "1e1"])
+    else:
+        b = ""
+    return text[:m.start()] + "[" + b + sep + e + "]" + text[m.end():], "interval:" + kind
+
+
 def explore(ctx, rng, count):
     items = []
     for _ in range(count):
         text, consts = gen_valid(rng)
         items.append((text, consts, "valid"))
+        im = interval_mutant(rng, text)
+        if im is not None:
+            items.append((im[0], consts, "mutant:" + im[1]))
         for _k in range(2):
             mt, kind = FR.mutate(rng, text)
             items.append((mt, consts, "mutant:" + kind))
@@ -138,8 +177,8 @@ def run(ctx):
             ctx.diffs.append(d)
     if ctx.violations:
         return
-    explore(ctx, ctx.subrng("front"), ctx.budget(250, 4000))
+    explore(ctx, ctx.subrng("front"), ctx.budget(1000, 12000))
 
 
 def search(ctx):
-    explore(ctx, ctx.subrng("search"), ctx.budget(800, 4000))
+    explore(ctx, ctx.subrng("search"), ctx.budget(3000, 12000))
